@@ -196,6 +196,9 @@ def allow_rename_globals(module, rename_globals=False, preserve_globals=None):
     for binding in module.bindings:
         if rename_globals is False or binding.name in preserve_globals:
             binding.disallow_rename()
+        elif not binding.is_assigned():
+            # This name is never bound in this module, it must be provided from somewhere else
+            binding.disallow_rename()
 
 
 try:
